@@ -10,6 +10,9 @@ import Mathlib.Tactic.LinearCombination
 import Mathlib.Logic.Function.Basic
 import Mathlib.Algebra.Order.Ring.Rat
 import Mathlib.Analysis.SpecialFunctions.Integrals.Basic
+import Mathlib.Algebra.Order.BigOperators.Group.List
+import Mathlib.Data.Rat.Cast.Order
+import Mathlib.Data.Rat.Cast.Lemmas
 import AoVerif.Lemmas.RealScalar
 import AoVerif.Lemmas.ZernikeRadial
 import AoVerif.Lemmas.ZernikePoly
@@ -1067,6 +1070,323 @@ example : ResidualTable false 2 ∧ ResidualTable true 2 ∧
 example : (∃ T : Transc ℝ, @RealTransc T) ∧ 7 < 45 := ⟨⟨realTransc (fun _ _ => 0), realTransc_lawful _⟩, by decide⟩
 
 end GammaBridge
+
+
+/-! ### the side conditions of `rms_unit` / `p2v_unit` discharged for the ACTUAL images `nollImage j N 0` -/
+
+section NonDegenerate
+open AoVerif.Lemmas.ZernikePoly
+set_option linter.unusedSectionVars false
+variable [Transc ℝ] [RealTransc]
+
+theorem coord_eq_coordE (N i : ℕ) : (coord N i : ℝ) = coordE N i := rfl
+
+theorem circleMask_eq_maskE (N r c : ℕ) : (circleMask N r c : ℝ) = maskE N r c := rfl
+
+theorem intCast_cast (c : ℤ) : ((Poly.intCast c : ℚ) : ℝ) = Poly.intCast c := by
+  unfold Poly.intCast
+  split_ifs <;> push_cast <;> rfl
+
+theorem eval_cast (p : Poly) (x y : ℚ) : ((Poly.eval p x y : ℚ) : ℝ) = Poly.eval p (x : ℝ) (y : ℝ) := by
+  unfold Poly.eval
+  have : ∀ a : ℚ, ((p.foldl (fun acc t => acc + Poly.intCast t.2.2 * x ^ t.1 * y ^ t.2.1) a : ℚ) : ℝ)
+      = p.foldl (fun acc t => acc + Poly.intCast t.2.2 * (x : ℝ) ^ t.1 * (y : ℝ) ^ t.2.1) (a : ℝ) := by
+    induction p with
+    | nil => intro a; rfl
+    | cons t p ih =>
+      intro a
+      simp only [List.foldl_cons]
+      rw [ih]
+      congr 1
+      push_cast [intCast_cast]
+      rfl
+  rw [this]
+  congr 1
+
+theorem coordE_cast (N i : ℕ) : ((coordE N i : ℚ) : ℝ) = coordE N i := by
+  unfold coordE
+  push_cast
+  norm_num
+
+theorem maskE_cast (N r c : ℕ) : ((maskE N r c : ℚ) : ℝ) = maskE N r c := by
+  unfold maskE
+  simp only
+  have key : ((((c : ℕ) : ℚ) + 0.5 - ((N : ℕ) : ℚ) / ((2 : ℕ) : ℚ)) * (((c : ℕ) : ℚ) + 0.5 - ((N : ℕ) : ℚ) / ((2 : ℕ) : ℚ))
+        + (((r : ℕ) : ℚ) + 0.5 - ((N : ℕ) : ℚ) / ((2 : ℕ) : ℚ)) * (((r : ℕ) : ℚ) + 0.5 - ((N : ℕ) : ℚ) / ((2 : ℕ) : ℚ))
+        ≤ ((N : ℕ) : ℚ) / ((2 : ℕ) : ℚ) * (((N : ℕ) : ℚ) / ((2 : ℕ) : ℚ))) ↔
+      ((((c : ℕ) : ℝ) + 0.5 - ((N : ℕ) : ℝ) / ((2 : ℕ) : ℝ)) * (((c : ℕ) : ℝ) + 0.5 - ((N : ℕ) : ℝ) / ((2 : ℕ) : ℝ))
+        + (((r : ℕ) : ℝ) + 0.5 - ((N : ℕ) : ℝ) / ((2 : ℕ) : ℝ)) * (((r : ℕ) : ℝ) + 0.5 - ((N : ℕ) : ℝ) / ((2 : ℕ) : ℝ))
+        ≤ ((N : ℕ) : ℝ) / ((2 : ℕ) : ℝ) * (((N : ℕ) : ℝ) / ((2 : ℕ) : ℝ))) := by
+    rw [← Rat.cast_le (K := ℝ)]
+    push_cast
+    norm_num
+  by_cases h : ((((c : ℕ) : ℚ) + 0.5 - ((N : ℕ) : ℚ) / ((2 : ℕ) : ℚ)) * (((c : ℕ) : ℚ) + 0.5 - ((N : ℕ) : ℚ) / ((2 : ℕ) : ℚ))
+        + (((r : ℕ) : ℚ) + 0.5 - ((N : ℕ) : ℚ) / ((2 : ℕ) : ℚ)) * (((r : ℕ) : ℚ) + 0.5 - ((N : ℕ) : ℚ) / ((2 : ℕ) : ℚ))
+        ≤ ((N : ℕ) : ℚ) / ((2 : ℕ) : ℚ) * (((N : ℕ) : ℚ) / ((2 : ℕ) : ℚ)))
+  · rw [if_pos h, if_pos (key.mp h)]; push_cast; rfl
+  · rw [if_neg h, if_neg (fun h' => h (key.mpr h'))]; push_cast; rfl
+
+theorem polyPixel_cast (j N r c : ℕ) : ((polyPixel (K := ℚ) j N r c : ℚ) : ℝ) = polyPixel (K := ℝ) j N r c := by
+  unfold polyPixel
+  push_cast [eval_cast, coordE_cast, maskE_cast]
+  rfl
+
+theorem normConst_pos (n m : ℕ) : 0 < normConst n m := by
+  unfold normConst
+  split_ifs <;> apply Real.sqrt_pos.mpr <;> positivity
+
+/-- **the generated pixel IS the Noll constant times the exact rational pixel**: every `j ≥ 1`, `N ≥ 1`, pixel, at `rot = 0` -/
+theorem nollPixel_eq_polyPixel (j N : ℕ) (hj : 1 ≤ j) (hN : 0 < N) (r c : ℕ) :
+    nollPixel j N (0 : ℝ) r c = normConst (nollN j) (nollAbsM j) * ((polyPixel (K := ℚ) j N r c : ℚ) : ℝ) := by
+  unfold nollPixel modePixel
+  simp only
+  rw [nollMode_eq_poly j hj, clip_eq_mask N r c hN, polyPixel_cast]
+  unfold polyPixel
+  rw [coord_eq_coordE, coord_eq_coordE, circleMask_eq_maskE]
+  ring
+
+theorem mem_image (N : ℕ) (f : ℕ → ℕ → ℝ) (r c : ℕ) (hr : r < N) (hc : c < N) : f r c ∈ image N f := by
+  unfold image
+  simp only [List.mem_flatMap, List.mem_map, List.mem_range]
+  exact ⟨r, hr, c, hc, rfl⟩
+
+theorem le_foldl_max_of_mem (l : List ℝ) (a x : ℝ) (hx : x ∈ l) :
+    x ≤ l.foldl (fun acc b => if acc ≤ b then b else acc) a := by
+  induction l generalizing a with
+  | nil => simp at hx
+  | cons b l ih =>
+    simp only [List.foldl_cons]
+    rcases List.mem_cons.mp hx with rfl | h
+    · refine le_trans ?_ (le_foldl_max l _)
+      split_ifs with h
+      · exact le_rfl
+      · exact le_of_lt (not_le.mp h)
+    · exact ih _ h
+
+theorem foldl_min_le_of_mem (l : List ℝ) (a x : ℝ) (hx : x ∈ l) :
+    l.foldl (fun acc b => if b ≤ acc then b else acc) a ≤ x := by
+  induction l generalizing a with
+  | nil => simp at hx
+  | cons b l ih =>
+    simp only [List.foldl_cons]
+    rcases List.mem_cons.mp hx with rfl | h
+    · refine le_trans (foldl_min_le l _) ?_
+      split_ifs with h
+      · exact le_rfl
+      · exact le_of_lt (not_le.mp h)
+    · exact ih _ h
+
+theorem le_listMax_of_mem (l : List ℝ) (x : ℝ) (hx : x ∈ l) : x ≤ listMax l := by
+  cases l with
+  | nil => simp at hx
+  | cons a l =>
+    rcases List.mem_cons.mp hx with rfl | h
+    · exact le_foldl_max l _
+    · exact le_foldl_max_of_mem l a x h
+
+theorem listMin_le_of_mem (l : List ℝ) (x : ℝ) (hx : x ∈ l) : listMin l ≤ x := by
+  cases l with
+  | nil => simp at hx
+  | cons a l =>
+    rcases List.mem_cons.mp hx with rfl | h
+    · exact foldl_min_le l _
+    · exact foldl_min_le_of_mem l a x h
+
+/-- an image with two different pixel values has a non-zero peak-to-valley (hypothesis `hd` of `p2v_unit`) -/
+theorem p2v_ne_zero_of_two (l : List ℝ) (x y : ℝ) (hx : x ∈ l) (hy : y ∈ l) (hxy : x ≠ y) : listMax l - listMin l ≠ 0 := by
+  intro h
+  have h1 := le_listMax_of_mem l x hx
+  have h2 := listMin_le_of_mem l x hx
+  have h3 := le_listMax_of_mem l y hy
+  have h4 := listMin_le_of_mem l y hy
+  apply hxy
+  linarith
+
+/-- an image with a non-zero pixel has a non-zero sum of squares (hypothesis `hS` of `rms_unit`) -/
+theorem sumsq_ne_zero_of_mem (l : List ℝ) (x : ℝ) (hx : x ∈ l) (hx0 : x ≠ 0) : listSum (l.map (fun v => v ^ 2)) ≠ 0 := by
+  rw [listSum_eq_sum]
+  have hmem : x ^ 2 ∈ l.map (fun v => v ^ 2) := List.mem_map.mpr ⟨x, hx, rfl⟩
+  have hnn : ∀ v ∈ l.map (fun v => v ^ 2), (0 : ℝ) ≤ v := by
+    intro v hv
+    obtain ⟨w, _, rfl⟩ := List.mem_map.mp hv
+    positivity
+  have := List.single_le_sum hnn _ hmem
+  have hpos : 0 < x ^ 2 := by positivity
+  linarith
+
+/-- **reduction of `hd` to a decidable exact check, every `j ≥ 1`, `N ≥ 1`**: if some exact rational pixel differs from pixel (0, 0)
+(`nonconstPix ℚ j N`, a finite computation) then the image generated for `norm="p2v"` has a non-zero peak-to-valley -/
+theorem noll_p2v_ne_zero (j N : ℕ) (hj : 1 ≤ j) (hN : 0 < N) (h : nonconstPix ℚ j N = true) :
+    listMax (nollImage j N (0 : ℝ)) - listMin (nollImage j N (0 : ℝ)) ≠ 0 := by
+  unfold nonconstPix at h
+  simp only [List.any_eq_true, List.mem_range, decide_eq_true_eq] at h
+  obtain ⟨r, hr, c, hc, hne⟩ := h
+  refine p2v_ne_zero_of_two _ (nollPixel j N 0 r c) (nollPixel j N 0 0 0)
+    (mem_image N _ r c hr hc) (mem_image N _ 0 0 hN hN) ?_
+  rw [nollPixel_eq_polyPixel j N hj hN, nollPixel_eq_polyPixel j N hj hN]
+  intro he
+  have := mul_left_cancel₀ (ne_of_gt (normConst_pos _ _)) he
+  exact hne (by exact_mod_cast this)
+
+/-- **reduction of `hS` to a decidable exact check** -/
+theorem noll_sumsq_ne_zero (j N : ℕ) (hj : 1 ≤ j) (hN : 0 < N) (h : nonzeroPix ℚ j N = true) :
+    listSum ((nollImage j N (0 : ℝ)).map (fun v => v ^ 2)) ≠ 0 := by
+  unfold nonzeroPix at h
+  simp only [List.any_eq_true, List.mem_range, decide_eq_true_eq] at h
+  obtain ⟨r, hr, c, hc, hne⟩ := h
+  refine sumsq_ne_zero_of_mem _ (nollPixel j N 0 r c) (mem_image N _ r c hr hc) ?_
+  rw [nollPixel_eq_polyPixel j N hj hN]
+  apply mul_ne_zero (ne_of_gt (normConst_pos _ _))
+  intro h0
+  apply hne
+  have : ((polyPixel (K := ℚ) j N r c : ℚ) : ℝ) = ((0 : ℚ) : ℝ) := by rw [h0]; simp
+  have := Rat.cast_injective this
+  simpa using this
+
+/-- the pupil of every grid `N ≥ 1` is non-empty (hypothesis `hC` of `rms_unit`): the pixel `(N/2, N/2)` lies inside -/
+theorem pupil_nonempty (N : ℕ) (hN : 0 < N) : 0 < listSum (circleImage N : List ℝ) := by
+  rw [listSum_eq_sum]
+  have hmem : (circleMask N (N / 2) (N / 2) : ℝ) ∈ (circleImage N : List ℝ) :=
+    mem_image N _ (N / 2) (N / 2) (Nat.div_lt_self hN (by norm_num)) (Nat.div_lt_self hN (by norm_num))
+  have hnn : ∀ v ∈ (circleImage N : List ℝ), (0 : ℝ) ≤ v := by
+    intro v hv
+    unfold circleImage image at hv
+    simp only [List.mem_flatMap, List.mem_map, List.mem_range] at hv
+    obtain ⟨r, _, c, _, rfl⟩ := hv
+    unfold circleMask
+    simp only
+    split_ifs <;> norm_num
+  have hle := List.single_le_sum hnn _ hmem
+  have hone : (circleMask N (N / 2) (N / 2) : ℝ) = 1 := by
+    unfold circleMask
+    simp only
+    rw [if_pos]
+    · norm_num
+    · rcases Nat.even_or_odd' N with ⟨k, rfl | rfl⟩
+      · have hk : 1 ≤ k := by omega
+        have hk' : (1 : ℝ) ≤ k := by exact_mod_cast hk
+        rw [show 2 * k / 2 = k by omega]
+        push_cast
+        norm_num
+        nlinarith
+      · rw [show (2 * k + 1) / 2 = k by omega]
+        push_cast
+        norm_num
+        nlinarith [sq_nonneg ((k : ℝ))]
+  linarith
+
+/-- **TABLE** (kernel-checked exact rational pixels, `j ≤ 28`, `N ≤ 12`, `rot = 0`; NOT an unbounded claim): the mode is constant on the
+grid exactly for the listed exclusions `constExcl` (all modes for `N = 1`; piston, defocus, … for `N = 2`; piston, Noll 15 and 25 for
+`N = 3`; none for `4 ≤ N ≤ 12`) and identically zero exactly for `zeroExcl` -/
+theorem table_nondegenerate_le6 : ∀ N ∈ List.range 7, ∀ j ∈ List.range 29, 1 ≤ N → 1 ≤ j →
+    nonconstPix ℚ j N = !(constExcl j N) ∧ nonzeroPix ℚ j N = !(zeroExcl j N) := by decide +kernel
+
+theorem table_nondegenerate_7_9 : ∀ N ∈ [7, 8, 9], ∀ j ∈ List.range 29, 1 ≤ j →
+    nonconstPix ℚ j N = !(constExcl j N) ∧ nonzeroPix ℚ j N = !(zeroExcl j N) := by decide +kernel
+
+theorem table_nondegenerate_10_12 : ∀ N ∈ [10, 11, 12], ∀ j ∈ List.range 29, 1 ≤ j →
+    nonconstPix ℚ j N = !(constExcl j N) ∧ nonzeroPix ℚ j N = !(zeroExcl j N) := by decide +kernel
+
+theorem table_nondegenerate (j N : ℕ) (hj : 1 ≤ j) (hj28 : j ≤ 28) (hN : 1 ≤ N) (hN12 : N ≤ 12) :
+    nonconstPix ℚ j N = !(constExcl j N) ∧ nonzeroPix ℚ j N = !(zeroExcl j N) := by
+  have hjm : j ∈ List.range 29 := List.mem_range.mpr (by omega)
+  by_cases h6 : N ≤ 6
+  · exact table_nondegenerate_le6 N (List.mem_range.mpr (by omega)) j hjm hN hj
+  · by_cases h9 : N ≤ 9
+    · exact table_nondegenerate_7_9 N (by have : N = 7 ∨ N = 8 ∨ N = 9 := by omega
+                                          rcases this with rfl | rfl | rfl <;> simp) j hjm hj
+    · exact table_nondegenerate_10_12 N (by have : N = 10 ∨ N = 11 ∨ N = 12 := by omega
+                                            rcases this with rfl | rfl | rfl <;> simp) j hjm hj
+
+theorem constExcl_false_of_ge4 (j N : ℕ) (hN : 4 ≤ N) : constExcl j N = false := by
+  unfold constExcl
+  have h1 : (N == 1) = false := by simp; omega
+  have h2 : (N == 2) = false := by simp; omega
+  have h3 : (N == 3) = false := by simp; omega
+  simp [h1, h2, h3]
+
+theorem zeroExcl_false_of_ge4 (j N : ℕ) (hN : 4 ≤ N) : zeroExcl j N = false := by
+  unfold zeroExcl
+  have h1 : (N == 1) = false := by simp; omega
+  have h2 : (N == 2) = false := by simp; omega
+  have h3 : (N == 3) = false := by simp; omega
+  simp [h1, h2, h3]
+
+/-- **unit peak-to-valley of the ACTUAL generated mode** `zernikeArray(·, N, "p2v")[j-1]` (model, `rot = 0`): every `1 ≤ j ≤ 28` and
+`1 ≤ N ≤ 12` outside the exclusion list `constExcl` — in particular all `4 ≤ N ≤ 12` (BOUNDED: rests on the TABLE) -/
+theorem p2v_unit_noll (j N : ℕ) (hj : 1 ≤ j) (hj28 : j ≤ 28) (hN : 1 ≤ N) (hN12 : N ≤ 12) (hex : constExcl j N = false) :
+    listMax (normalise .p2v N (nollImage j N (0 : ℝ))) - listMin (normalise .p2v N (nollImage j N (0 : ℝ))) = 1 := by
+  apply p2v_unit
+  apply noll_p2v_ne_zero j N hj hN
+  rw [(table_nondegenerate j N hj hj28 hN hN12).1, hex]; rfl
+
+/-- **unit RMS of the ACTUAL generated mode** `zernikeArray(·, N, "rms")[j-1]` (model, `rot = 0`), outside the exclusion list `zeroExcl` -/
+theorem rms_unit_noll (j N : ℕ) (hj : 1 ≤ j) (hj28 : j ≤ 28) (hN : 1 ≤ N) (hN12 : N ≤ 12) (hex : zeroExcl j N = false) :
+    Transc.sqrt (listSum ((normalise .rms N (nollImage j N (0 : ℝ))).map (fun v => v ^ 2)) / listSum (circleImage N : List ℝ)) = 1 := by
+  apply rms_unit N _ (pupil_nonempty N hN)
+  apply noll_sumsq_ne_zero j N hj hN
+  rw [(table_nondegenerate j N hj hj28 hN hN12).2, hex]; rfl
+
+/-- in particular: every mode `j ≤ 28` on every grid `4 ≤ N ≤ 12` -/
+theorem p2v_unit_noll_ge4 (j N : ℕ) (hj : 1 ≤ j) (hj28 : j ≤ 28) (hN : 4 ≤ N) (hN12 : N ≤ 12) :
+    listMax (normalise .p2v N (nollImage j N (0 : ℝ))) - listMin (normalise .p2v N (nollImage j N (0 : ℝ))) = 1 :=
+  p2v_unit_noll j N hj hj28 (by omega) hN12 (constExcl_false_of_ge4 j N hN)
+
+theorem rms_unit_noll_ge4 (j N : ℕ) (hj : 1 ≤ j) (hj28 : j ≤ 28) (hN : 4 ≤ N) (hN12 : N ≤ 12) :
+    Transc.sqrt (listSum ((normalise .rms N (nollImage j N (0 : ℝ))).map (fun v => v ^ 2)) / listSum (circleImage N : List ℝ)) = 1 :=
+  rms_unit_noll j N hj hj28 (by omega) hN12 (zeroExcl_false_of_ge4 j N hN)
+
+end NonDegenerate
+
+/-- non-vacuity of the hypotheses of `p2v_unit_noll` / `rms_unit_noll`: coma on a 5-grid is not excluded -/
+example : (1 ≤ 8 ∧ 8 ≤ 28 ∧ 1 ≤ 5 ∧ 5 ≤ 12) ∧ constExcl 8 5 = false ∧ zeroExcl 8 5 = false := by decide
+
+/-- the exclusions are genuine: piston on a 3-grid is constant and non-zero (all nine pixels inside the pupil), defocus on a 2-grid is
+identically zero (`2r² − 1` at `r² = 1/2`), spherical (Noll 11) on a 2-grid is constant but non-zero; tilt on a 3-grid is neither -/
+example : nonconstPix ℚ 1 3 = false ∧ nonzeroPix ℚ 1 3 = true ∧ nonconstPix ℚ 4 2 = false ∧ nonzeroPix ℚ 4 2 = false ∧
+    nonconstPix ℚ 11 2 = false ∧ nonzeroPix ℚ 11 2 = true ∧ nonconstPix ℚ 2 3 = true ∧ nonzeroPix ℚ 2 3 = true := by decide +kernel
+
+/-! ### exactness of the integer division in `radialCoefInt` (what `table_gamma_dx/dy` rest on), all orders + a kernel-checked table -/
+
+section CoefExact
+open AoVerif.Lemmas.ZernikePoly (fact_eq_factorial valid_split)
+
+/-- the quotient in `radialCoefInt` is exact for EVERY valid `(n, m)` and `i ≤ (n-m)/2`: `q · (i! ((n+m)/2-i)! ((n-m)/2-i)!) = (n-i)!` -/
+theorem radialCoefInt_exact (n m i : ℕ) (hm : m ≤ n) (hp : (n - m) % 2 = 0) (hi : i ≤ (n - m) / 2) :
+    (radialCoefInt n m i).natAbs * (fact i * fact ((n + m) / 2 - i) * fact ((n - m) / 2 - i)) = fact (n - i) := by
+  obtain ⟨hs, hn⟩ := valid_split n m hm hp
+  have habs : (radialCoefInt n m i).natAbs = fact (n - i) / (fact i * fact ((n + m) / 2 - i) * fact ((n - m) / 2 - i)) := by
+    unfold radialCoefInt
+    simp only
+    split_ifs
+    · exact Int.natAbs_natCast _
+    · rw [Int.natAbs_neg]; exact Int.natAbs_natCast _
+  rw [habs]
+  simp only [fact_eq_factorial, hn i]
+  exact Nat.div_mul_cancel (Lemmas.ZernikeRadial.factorial_dvd _ _ i hi hs)
+
+/-- **TABLE** (kernel-checked, `n ≤ 12`: every coefficient used by `table_gamma_dx/dy/dx12/dy12`; superseded by `radialCoefInt_exact`) -/
+theorem table_radialCoefInt_exact : ∀ n ∈ List.range 13, ∀ m ∈ List.range (n + 1), (n - m) % 2 = 0 → ∀ i ∈ List.range ((n - m) / 2 + 1),
+    (radialCoefInt n m i).natAbs * (fact i * fact ((n + m) / 2 - i) * fact ((n - m) / 2 - i)) = fact (n - i) := by decide +kernel
+
+end CoefExact
+
+/-! ### `int(numpy.round(·))` of the count path -/
+
+/-- an integral count (`7`, `7.0`, `numpy.float64(7)`) is passed through unchanged -/
+theorem npRound_integral (k d : ℕ) (hd : 0 < d) : npRound (k * d) d = k := by
+  unfold npRound
+  simp [Nat.mul_div_cancel _ hd, Nat.mul_mod_left, hd]
+
+/-- **a count / size given as an integral float is the integer call**: `zernikeArray(7.0, 8.0) = zernikeArray(7, 8)` (law-free payload) -/
+theorem count_float_integral {K : Type} [Add K] [Sub K] [Mul K] [Div K] [Neg K] [NatCast K] [OfScientific K] [HPow K Nat K]
+    [Transc K] [LE K] [DecidableLE K] (J N d e : ℕ) (hd : 0 < d) (he : 0 < e) (norm : Norm) (rot : K) :
+    zernikeArrayCountF (J * d) d (N * e) e norm rot = zernikeArrayCount J N norm rot := by
+  unfold zernikeArrayCountF
+  rw [npRound_integral J d hd, npRound_integral N e he]
+
+/-- ties go to the even neighbour (`numpy.round(2.5) = 2`, `numpy.round(3.5) = 4`), otherwise to the nearest integer -/
+example : npRound 5 2 = 2 ∧ npRound 7 2 = 4 ∧ npRound 66 10 = 7 ∧ npRound 64 10 = 6 ∧ npRound 1 2 = 0 := by decide
 
 
 /-
